@@ -35,6 +35,7 @@ type callInfo struct {
 type summary struct {
 	exits []*state
 	rets  []AV
+	data  AV // explicit (data-flow only) taints of the returned values, all results merged
 }
 
 func (s *summary) key() string {
@@ -75,6 +76,7 @@ type staleUse struct {
 
 type accessEvent struct {
 	site       int
+	sites      map[int]bool // every critical-section site under which the access was seen
 	atomic     bool
 	inst, slot string
 	write      bool
